@@ -801,9 +801,12 @@ def run_scenario(cfg):
         elif info.get("wpending"):
             problems.append(f"post-handshake authentication: {info.get('wpending')} bytes left in the outgoing BIO at the end")
     elif name == "feed-during-flush":
-        if info["stuck"]:
+        if info["stuck"] == ["r2"]:
             problems.append(f"stuck: {info['stuck']}: a recv() went to read the transport although its record had been fed to the SSL "
                             "object (by another recv()) while it was flushing / queueing on the send lock: the feed was not noticed")
+        elif info["stuck"]:
+            problems.append(f"stuck: {info['stuck']} did not complete (two recv() and two send_all() under back-pressure: the first "
+                            "recv() must return its record as soon as it is decrypted, the second one once the back-pressure is gone)")
         elif [bytes(info["recvd"].get(k_, b"")) for k_ in ("r1", "r2")] != [bytes(peer_plain[:5]), bytes(peer_plain[5:10])]:
             problems.append("feed-during-flush: the two recv() calls did not return the two records in order")
     elif name == "cancel-sweep":
